@@ -41,6 +41,10 @@ const PAIR_VALUES: [u8; 11] = [0, 1, 7, 8, 0x0f, 0x3f, 0x40, 0x7f, 0x80, 0xf0, 0
 const HEAD: usize = 96;
 const PAIR_HEAD: usize = 40;
 const ADVANCES: [i64; 3] = [0, 1_000, 61_000];
+/// silences used by the scripted sequences (all > 60 s: neighbor entries and reassembly slots
+/// expire; 61 s + 1 s steps and 64 s cover the retransmission at about 63 s of a peer that is
+/// polled at every deadline)
+const SILENCES: [&[i64]; 4] = [&[61_000], &[61_000, 1_000], &[61_000, 1_000, 1_000], &[64_000]];
 
 // ------------------------------------------------------------------------------------------
 // events, replayable runs
@@ -481,7 +485,7 @@ fn run_unit_inner(base: &Base, tier: Tier, unit: Unit) -> UnitOut {
             let seed = &base.seeds[si];
             let (changed, replies) = ev.frame(si, &seed.frame, false, true);
             ev.out.seed_effect = Some(changed || replies > 0);
-            for len in 0..seed.frame.len() {
+            for len in 0..if seed.mutate == 0 { 0 } else { seed.frame.len() } {
                 ev.frame(si, &seed.frame[..len], false, true);
             }
         }
@@ -631,7 +635,7 @@ fn units_of(base: &Base, tier: Tier) -> Vec<Unit> {
     let mut units: Vec<Unit> = vec![];
     for (si, seed) in base.seeds.iter().enumerate() {
         units.push(Unit::Base(si));
-        if !seed.mutate {
+        if seed.mutate < 2 {
             continue;
         }
         for pos in positions(seed) {
@@ -695,7 +699,7 @@ fn merge_cfg(base: &Base, units: &[Unit], outs: Vec<UnitOut>, ex: &mut Explored)
         if let (Unit::Base(si), Some(e)) = (u, o.seed_effect) {
             if e {
                 st.seeds_with_effect += 1;
-                if !base.seeds[*si].expect_effect {
+                if !base.seeds[*si].expect_effect && !base.seeds[*si].name.contains("/icmp-cut/") && !base.seeds[*si].name.contains("/tcp-b/") {
                     surprise_effect_seeds.push(base.seeds[*si].name.clone());
                 }
             } else if base.seeds[*si].expect_effect {
@@ -833,7 +837,7 @@ fn bfs(cfg: Cfg, base_fp: u128, frames: &[Vec<u8>], depth: usize, budget_s: f64,
 fn all_cfgs() -> Vec<Cfg> {
     let mut v = vec![];
     for medium in [Medium::Ethernet, Medium::Ip, Medium::Ieee802154] {
-        for variant in [0u8, 1] {
+        for variant in [0u8, 1, 2] {
             v.push(Cfg { medium, variant, join_154: false });
         }
     }
@@ -896,7 +900,7 @@ fn explore(tier: Tier) -> Explored {
     // reply classes x set of interface/socket components whose image changed); fine alphabet
     // (thorough, depth 2): one per (effect, seed).
     let n = merged.len().max(1) as f64;
-    let (coarse_depth, coarse_budget, fine_budget) = if tier == Tier::Quick { (2, 12.0 / n, 0.0) } else { (3, 240.0 / n, 120.0 / n) };
+    let (coarse_depth, coarse_budget, fine_budget) = if tier == Tier::Quick { (2, 30.0 / n, 0.0) } else { (3, 300.0 / n, 150.0 / n) };
     for (ci, (mut st, effects)) in merged {
         let cfg = cfgs[ci];
         let base = bases[ci].as_ref().unwrap();
@@ -920,7 +924,14 @@ fn explore(tier: Tier) -> Explored {
         let frames = with_pins(reps, if coarse_depth == 2 { 2 } else { 1 });
         st.bfs.push(("coarse+pinned".into(), bfs(cfg, base.fp, &frames, coarse_depth, coarse_budget, &mut ex)));
         if tier == Tier::Thorough {
-            let frames = with_pins(effects.values().cloned().collect(), 2);
+            // (the members of the systematic ICMP quotation-length family are represented in
+            // the coarse alphabet by effect only, not one by one)
+            let fine: Vec<Vec<u8>> = effects
+                .iter()
+                .filter(|((_, si), _)| *si == usize::MAX || !base.seeds[*si].name.contains("/icmp-cut/"))
+                .map(|(_, f)| f.clone())
+                .collect();
+            let frames = with_pins(fine, 2);
             st.bfs.push(("fine+pinned".into(), bfs(cfg, base.fp, &frames, 2, fine_budget, &mut ex)));
         }
         // scripted sequences: every TCP edge handshake segment followed by every ordered pair
@@ -933,6 +944,24 @@ fn explore(tier: Tier) -> Explored {
             for f1 in &follow {
                 for f2 in &follow {
                     scripts.push(vec![Ev::Frame(open.frame.clone()), Ev::Frame(f1.frame.clone()), Ev::Frame(f2.frame.clone())]);
+                }
+                // the peer goes silent after the handshake segment: its neighbor entry (60 s)
+                // expires, our retransmission cannot be emitted, then the late segment arrives
+                for gap in SILENCES {
+                    let mut evs = vec![Ev::Frame(open.frame.clone())];
+                    evs.extend(gap.iter().map(|ms| Ev::Advance(*ms)));
+                    evs.push(Ev::Frame(f1.frame.clone()));
+                    scripts.push(evs);
+                }
+            }
+        }
+        if cfg.variant == 2 {
+            // FIN-WAIT-1 world: silence, then every segment for the closing connection
+            for f in base.seeds.iter().filter(|s| s.name.contains("/tcp-est/")) {
+                for gap in SILENCES {
+                    let mut evs: Vec<Ev> = gap.iter().map(|ms| Ev::Advance(*ms)).collect();
+                    evs.push(Ev::Frame(f.frame.clone()));
+                    scripts.push(evs);
                 }
             }
         }
@@ -975,7 +1004,7 @@ fn explore(tier: Tier) -> Explored {
 
 pub fn run(tier: Tier) -> i32 {
     let mut rep = Report::new("C03", tier);
-    rep.assumptions.push("bounds: single-frame pass = every seed of the catalogue, every truncation, every single byte of the first 96 bytes (+ DHCP option area, NDISC/DNS message tails, whole 802.15.4 frames) set to the boundary set {0,1,7,8,0x0f,0x28,0x2f,0x3f,0x40,0x7f,0x80,0xf0,0xff,orig^1} (quick) or to all 256 values (thorough), each raw and with all locatable checksums recomputed; thorough adds every pair of positions in the first 40 bytes x every pair of values from {0,1,7,8,0x0f,0x3f,0x40,0x7f,0x80,0xf0,0xff} (checksums recomputed) and all byte strings of length <= 2 (quick: first byte from the boundary set); sequences = BFS to depth 2 (quick) / 3 (thorough) over one representative frame per distinct observable effect (reply classes x changed components) + time advances {0, 1 s, 61 s}; thorough additionally depth 2 over one representative per (effect, seed); lone-fragment seeds and the TCP sequence-space edge seeds (handshake segments placing RCV.NXT at 2^31-0x100, 2^31-0x20, 2^31-1, 2^31 and the same below 2^32, with their follow-up segments) are pinned into the alphabets, and every handshake x follow-up x follow-up triple is run as a scripted sequence; BFS levels are cut by a wall-clock budget only with exhaustive=false reported".into());
+    rep.assumptions.push("bounds: single-frame pass = every seed of the catalogue, every truncation, every single byte of the first 96 bytes (+ DHCP option area, NDISC/DNS message tails, whole 802.15.4 frames) set to the boundary set {0,1,7,8,0x0f,0x28,0x2f,0x3f,0x40,0x7f,0x80,0xf0,0xff,orig^1} (quick) or to all 256 values (thorough), each raw and with all locatable checksums recomputed; thorough adds every pair of positions in the first 40 bytes x every pair of values from {0,1,7,8,0x0f,0x3f,0x40,0x7f,0x80,0xf0,0xff} (checksums recomputed) and all byte strings of length <= 2 (quick: first byte from the boundary set); sequences = BFS to depth 2 (quick) / 3 (thorough) over one representative frame per distinct observable effect (reply classes x changed components) + time advances {0, 1 s, 61 s}; thorough additionally depth 2 over one representative per (effect, seed); lone-fragment seeds and the TCP sequence-space edge seeds (handshake segments placing RCV.NXT at 2^31-0x100, 2^31-0x20, 2^31-1, 2^31 and the same below 2^32, with their follow-up segments) are pinned into the alphabets, every handshake x follow-up x follow-up triple, and every handshake (or, in the variant C worlds, the application's close()) followed by a silence of 61 / 62 / 63 / 64 s and a late segment, is run as a scripted sequence; ICMPv4/ICMPv6 error messages are seeded with their quotation cut to every length (outer lengths and checksums consistent); BFS levels are cut by a wall-clock budget only with exhaustive=false reported".into());
     rep.assumptions.push("every injected frame meets a FRESH world in the base state and is followed by the probe; pair mutants and 2-byte raw frames get oracle (1)+(2) only (they are not fingerprinted, so they do not count in 'changed state')".into());
     rep.assumptions.push("the application model reads and discards received data after every poll and applies DHCP configuration events (IPv4 address, default route) like examples/dhcp_client.rs; trusted: harness frame builders, independent reply classifier".into());
     rep.assumptions.push("the 802.15.4 worlds used for frame exploration have no joined multicast group (joining one makes the very first poll panic before any frame is received: recorded under notes_outside_C03, not as a violation) and no IPv4; overflow-checks are ON in this profile, so arithmetic overflow on attacker-controlled lengths is observed as a panic".into());
@@ -1099,7 +1128,7 @@ pub fn run(tier: Tier) -> i32 {
                 "probes_run": s.probes_run, "mutants_fingerprinted": s.fingerprinted,
                 "worlds_built": s.worlds_built, "max_device_calls_in_one_poll": s.max_dev_calls,
                 "seeds_not_expected_to_have_an_effect_that_had_one": s.surprise,
-                "seeds_pinned_into_bfs_alphabets": s.pinned, "scripted_three_frame_tcp_edge_sequences": s.scripts,
+                "seeds_pinned_into_bfs_alphabets": s.pinned, "scripted_sequences(tcp edge triples, handshake/close + silence + late segment)": s.scripts,
                 "bfs": s.bfs.iter().map(|(n, b)| json!({"alphabet": n, "events(frames+advances)": b.alphabet, "depth": b.depth, "states": b.states,
                         "transitions": b.transitions, "new_states_per_level": b.per_level, "exhaustive": b.exhaustive, "note": b.note})).collect::<Vec<_>>(),
             }),
